@@ -517,6 +517,10 @@ func checkAlone(b *Build, results []*BatchResult, verifSeed uint64, root string,
 		logf("O8 skipped: could not repeat batch %d", bt.Seed)
 		return ""
 	}
+	if f1.ResHash == a1.ResHash && f2.ResHash == a2.ResHash {
+		logf("O8: the difference seen in batch %d (run %d) did not repeat in two further pairs of processes: results vary per process for a reason other than call history; not reported", bt.Seed, k)
+		return ""
+	}
 	if a1.ResHash != a2.ResHash {
 		logf("O8 not applicable: run %d of batch %d executed alone gives different results in two fresh processes (results vary per process for a reason other than call history)", k, bt.Seed)
 		return ""
@@ -613,20 +617,25 @@ func checkCanary(b *Build, results []*BatchResult, verifSeed uint64, root string
 		}
 	}
 	fresh := func(race bool, tag string) map[string]string {
-		res := runWorker(b, race, batchArgs(Batch{Seed: 1, Runs: 0, Tier: tier}), filepath.Join(b.Scratch, "race-canary-"+tag), 5*time.Minute)
+		args := batchArgs(Batch{Seed: 1, Runs: 0, Tier: tier})
+		if tag == "f2" {
+			args = append(args, "-clockoffset", "93900") // another day, another minute: what depends on the start time shows
+		}
+		res := runWorker(b, race, args, filepath.Join(b.Scratch, "race-canary-"+tag), 5*time.Minute)
 		if res.End == nil {
 			return nil
 		}
 		return res.End.Canary
 	}
 	f1, f2, f3 := fresh(false, "f1"), fresh(false, "f2"), fresh(true, "f3")
-	if f1 == nil || f2 == nil || f3 == nil {
+	f4, f5 := fresh(false, "f4"), fresh(false, "f5")
+	if f1 == nil || f2 == nil || f3 == nil || f4 == nil || f5 == nil {
 		logf("O7 skipped: a history-free worker process did not report canary digests")
 		return ""
 	}
-	if canaryKey(f1) != canaryKey(f2) || canaryKey(f1) != canaryKey(f3) {
+	if canaryKey(f1) != canaryKey(f2) || canaryKey(f1) != canaryKey(f3) || canaryKey(f1) != canaryKey(f4) || canaryKey(f1) != canaryKey(f5) {
 		logf("O7 not applicable: canary digests differ between history-free processes (%s): results vary per process for a reason other than call history",
-			strings.Join(canaryDiffKeys(f1, canaryFirstDifferent(f1, f2, f3)), ", "))
+			strings.Join(canaryDiffKeys(f1, canaryFirstDifferent(f1, f2, f3, f4, f5)), ", "))
 		return ""
 	}
 	refKey := canaryKey(f1)
